@@ -338,6 +338,9 @@ func (bucket *Bucket) expireDocuments() (int64, error) {
 	var count int64
 	for _, name := range names {
 		if coll, err := bucket.getCollection(name.(sgbucket.DataStoreNameImpl)); err != nil {
+			if _, ok := err.(sgbucket.MissingError); ok {
+				continue // the collection was dropped since it was listed
+			}
 			return 0, err
 		} else if n, err := coll.expireDocuments(); err != nil {
 			return 0, err
